@@ -810,8 +810,10 @@ impl Mp4TrackWriter {
         if self.trak.mdia.mdhd.duration > (u32::MAX as u64) {
             self.trak.mdia.mdhd.version = 1
         }
-        self.trak.tkhd.duration +=
-            dur as u64 * movie_timescale as u64 / self.trak.mdia.mdhd.timescale as u64;
+        // Convert the total media duration; summing per-sample conversions
+        // accumulates the rounding error of every sample.
+        self.trak.tkhd.duration = (self.trak.mdia.mdhd.duration as u128 * movie_timescale as u128
+            / self.trak.mdia.mdhd.timescale as u128) as u64;
         if self.trak.tkhd.duration > (u32::MAX as u64) {
             self.trak.tkhd.version = 1
         }
